@@ -140,7 +140,7 @@ Proof.
   unfold udp_segment, put16.
   set (l := 8 + len payload).
   set (s0 := u16b sp ++ u16b dp ++ u16b l ++ [0; 0] ++ payload).
-  set (v := cksum s0 _).
+  set (v := udp_ck (cksum s0 _)).
   exists ((v / 256) mod 256), (v mod 256). unfold s0, u16b. reflexivity.
 Qed.
 
